@@ -218,6 +218,8 @@ def finish(prop, tier, checks, level, t0, seed, extra_cov=None, assumptions=None
         "undecided": len([r for r in allr if r["verdict"] == UNDECIDED]),
         "informational": infos[:60],
         "known_findings_matched": sorted(printed_known),
+        "renames_normalised": sorted({r for c in checks for r in getattr(c.facts, "renames", [])}),
+        "normalisations": {c.config: {"combinator closures expanded": len(getattr(c.facts, "expanded_closures", {})), "edges threaded": sum(getattr(c.facts, "threaded", {}).values()), "helpers inlined": len(getattr(c.facts, "inlined", []))} for c in checks},
         "not_decided": not_decided or [],
         "not_analysed": ["cfg(windows) code", "sources/ping/pipe.rs and iocp.rs (not built on this Linux host)", "cfg(test) modules", "feature nightly_coverage", "32- and 16-bit targets"],
     }
